@@ -46,6 +46,7 @@ type stats struct {
 	Nontrivial   int64            `json:"distinct_nontrivial"`
 	States       int64            `json:"states"`
 	Incomplete   []string         `json:"incomplete,omitempty"`
+	Unmodelled   []string         `json:"unmodelled,omitempty"`
 	Vacuous      []string         `json:"single_outcome_cases,omitempty"`
 	ByGroup      map[string]int   `json:"executions_by_group,omitempty"`
 	Extra        map[string]int64 `json:"extra,omitempty"`
@@ -272,6 +273,15 @@ func main() {
 					mu.Unlock()
 					continue
 				}
+				if os.Getenv("VERIF_DUMP") != "" {
+					mu.Lock()
+					for _, l := range strings.Split(eb.String(), "\n") {
+						if strings.HasPrefix(l, "DUMP ") {
+							fmt.Fprintln(os.Stderr, l)
+						}
+					}
+					mu.Unlock()
+				}
 				var rp report
 				line := lastLine(ob.String())
 				if err := json.Unmarshal([]byte(line), &rp); err != nil {
@@ -319,6 +329,7 @@ func main() {
 			total.MaxThreads = s.MaxThreads
 		}
 		total.Incomplete = append(total.Incomplete, s.Incomplete...)
+		total.Unmodelled = append(total.Unmodelled, s.Unmodelled...)
 		total.Vacuous = append(total.Vacuous, s.Vacuous...)
 		for k, v := range s.ByGroup {
 			total.ByGroup[k] += v
@@ -412,6 +423,13 @@ func main() {
 	}
 
 	// 6. evidence
+	if len(total.Unmodelled) > 0 {
+		for _, u := range total.Unmodelled {
+			fmt.Fprintln(os.Stderr, "unmodelled:", u)
+		}
+		cleanup(scratch, keep)
+		die(2, "%d execution(s) reached an operation the scheduler does not model (machinery error, no verdict)", total.Extra["unmodelled_operation"])
+	}
 	exhaustive := len(total.Incomplete) == 0
 	if total.Nontrivial < 2 && total.Executions >= 2 {
 		// never report fewer than what was measured; the schema needs >= 2 to accept the file
